@@ -1,11 +1,11 @@
 //! Deterministic long-lived key pool: a key is a pure function of (scheme code, id), derived
-//! through the entropy seam with a temporary seed, cached per worker thread.
-//! ML-DSA / ML-KEM keys come from pqcrypto (OS randomness, not controllable): they are used
-//! only in fenced thorough-tier scenarios and never enter a trace hash.
+//! through the entropy seams with a temporary seed (bc-rand for the classical schemes, the
+//! interposed `getrandom` for pqcrypto's ML-DSA / ML-KEM), cached process-wide. A key is generated on
+//! a helper thread so that generating it does not advance the caller's hash keys (see osrand.rs).
 
 use bc_components::{EncapsulationPrivateKey, EncapsulationPublicKey, EncapsulationScheme, SignatureScheme, SigningOptions, SigningPrivateKey, SigningPublicKey};
-use std::cell::RefCell;
-use std::collections::HashMap;
+use std::collections::BTreeMap;
+use std::sync::Mutex;
 
 pub const SIG_SCHNORR: u8 = 0;
 pub const SIG_ECDSA: u8 = 1;
@@ -49,9 +49,12 @@ pub fn sig_options(code: u8) -> Option<SigningOptions> {
     }
 }
 
-thread_local! {
-    static SIGN: RefCell<HashMap<(u8, u8), (SigningPrivateKey, SigningPublicKey)>> = RefCell::new(HashMap::new());
-    static ENC: RefCell<HashMap<(u8, u8), (EncapsulationPrivateKey, EncapsulationPublicKey)>> = RefCell::new(HashMap::new());
+static SIGN: Mutex<BTreeMap<(u8, u8), (SigningPrivateKey, SigningPublicKey)>> = Mutex::new(BTreeMap::new());
+static ENC: Mutex<BTreeMap<(u8, u8), (EncapsulationPrivateKey, EncapsulationPublicKey)>> = Mutex::new(BTreeMap::new());
+
+fn on_helper_thread<T: Send + 'static>(seed: [u8; 32], f: impl FnOnce() -> T + Send + 'static) -> T {
+    let os_seed = u64::from_le_bytes(seed[..8].try_into().unwrap());
+    std::thread::spawn(move || crate::osrand::with_stream(os_seed, || bc_rand::verif_with_temp_seed(seed, f))).join().expect("key generation")
 }
 
 fn seed_for(kind: &str, scheme: u8, id: u8) -> [u8; 32] {
@@ -59,12 +62,8 @@ fn seed_for(kind: &str, scheme: u8, id: u8) -> [u8; 32] {
 }
 
 pub fn signing(scheme: u8, id: u8) -> (SigningPrivateKey, SigningPublicKey) {
-    SIGN.with(|m| {
-        let mut m = m.borrow_mut();
-        m.entry((scheme, id))
-            .or_insert_with(|| bc_rand::verif_with_temp_seed(seed_for("sig", scheme, id), || sig_scheme(scheme).keypair_opt(format!("verif-{}", id))))
-            .clone()
-    })
+    let mut m = SIGN.lock().unwrap_or_else(|e| e.into_inner());
+    m.entry((scheme, id)).or_insert_with(|| on_helper_thread(seed_for("sig", scheme, id), move || sig_scheme(scheme).keypair_opt(format!("verif-{}", id)))).clone()
 }
 
 pub const ENC_X25519: u8 = 0;
@@ -80,8 +79,6 @@ pub fn enc_scheme(code: u8) -> EncapsulationScheme {
 }
 
 pub fn encap(scheme: u8, id: u8) -> (EncapsulationPrivateKey, EncapsulationPublicKey) {
-    ENC.with(|m| {
-        let mut m = m.borrow_mut();
-        m.entry((scheme, id)).or_insert_with(|| bc_rand::verif_with_temp_seed(seed_for("enc", scheme, id), || enc_scheme(scheme).keypair())).clone()
-    })
+    let mut m = ENC.lock().unwrap_or_else(|e| e.into_inner());
+    m.entry((scheme, id)).or_insert_with(|| on_helper_thread(seed_for("enc", scheme, id), move || enc_scheme(scheme).keypair())).clone()
 }
